@@ -21,8 +21,12 @@ def gen_cases(sh):
         maxrows = 3 if tier == 'thorough' else 2
         pt = list(qcheck.tables_upto(v['rows'], maxrows)) + [qcheck.long_table(v['rows'], maxrows)]
         jt = list(qcheck.tables_upto(v['jrows'], maxrows)) + [qcheck.long_table(v['jrows'][:4], maxrows)]
+        w12 = [['c%d' % i for i in range(1, 13)], ['d%d' % i for i in range(1, 13)], ['e%d' % i for i in range(1, 12)]]
         for kind, q in qs[lo:hi]:
-            if kind == 'plain':
+            if kind == 'wide':
+                for A in qcheck.tables_upto(w12, 2):
+                    yield q, A, None, None, None
+            elif kind == 'plain':
                 for A in pt:
                     yield q, A, None, None, None
             else:
@@ -63,7 +67,7 @@ def gen_cases(sh):
             for B in tb:
                 for A in ta:
                     yield q, A, B, None, None
-            for B in (bigB, bigB[::-1], bigB[:4]):
+            for B in (bigB, bigB[::-1], bigB[:4], [[k, 'm1'], [], [k, 'm3']], [[], [k, 'm1']]):
                 for A in (bigA, bigA[:2], bigA[2:]):
                     yield q, A, B, None, None
         if lo == 0:
